@@ -277,26 +277,57 @@ def run(ctx, prog):
     nc = 0
     for fn in sorted(prog.q("detail::convertNumber"), key=lambda f: f.key):
         nc += 1
-        ok = False
-        for i in fn.walk():
-            st = fn.s(i)
-            if st["k"] == "ConditionalOperator":
-                c = fn.s(fn.strip(st["c"][0], casts=True))
-                t = fn.s(fn.strip(st["c"][1], casts=False))
-                f = fn.const(st["c"][2])
-                guard_ok = c["k"] in P.CALL_KINDS and c.get("callee", {}).get("q", "").endswith("canConvertNumber") and \
-                    fn.s(fn.strip(c["args"][0], casts=True)).get("ref", {}).get("k") == "parm"
-                # same TOut
-                if guard_ok:
-                    gk = c["callee"]["key"]
-                    to, ti = targs_of(fn)
-                    guard_ok = ("canConvertNumber<%s," % to) in gk
-                cast_ok = fn.s(fn.strip(st["c"][1], casts=True)).get("ref", {}).get("k") == "parm"
-                zero = f == 0 or fn.s(fn.strip(st["c"][2], casts=True)).get("v") in ("0", 0) or \
-                    fn.s(fn.strip(st["c"][2], casts=True))["k"] == "FloatingLiteral"
-                ok = guard_ok and cast_ok and zero
+        to, ti = targs_of(fn)
+        pd = fn.params[0]["d"] if fn.params else None
+
+        def is_guard(cond):
+            c = fn.s(fn.strip(cond, casts=True))
+            neg = False
+            while c["k"] == "UnaryOperator" and c["op"] == "!":
+                neg = not neg
+                c = fn.s(fn.strip(c["c"][0], casts=True))
+            if c["k"] in P.CALL_KINDS and c.get("callee", {}).get("q", "").endswith("canConvertNumber") and \
+                    ("canConvertNumber<%s," % to) in c["callee"]["key"] and c.get("args") and \
+                    fn.s(fn.strip(c["args"][0], casts=True)).get("ref", {}).get("d") == pd:
+                return not neg      # polarity under which the guard holds
+            return None
+
+        def leaves(e, ctxs):
+            """(leaf expression, [(cond, pol)...]) for the arms of nested conditional operators"""
+            st = fn.s(fn.strip(e, casts=False))
+            inner = fn.strip(e, casts=True)
+            si = fn.s(inner)
+            if si["k"] == "ConditionalOperator":
+                return leaves(si["c"][1], ctxs + [(si["c"][0], True)]) + leaves(si["c"][2], ctxs + [(si["c"][0], False)])
+            return [(e, ctxs)]
+        sites = []
+        for r in fn.walk():
+            if fn.s(r)["k"] == "ReturnStmt" and fn.s(r)["c"]:
+                for leaf, cx in leaves(fn.s(r)["c"][0], list(fn.guards_of(r))):
+                    sites.append((leaf, cx))
+        ok = bool(sites)
+        ncast = 0
+        why = ""
+        for leaf, cx in sites:
+            uses_value = any(fn.s(x)["k"] == "DeclRefExpr" and fn.s(x)["ref"]["d"] == pd for x in fn.walk(leaf))
+            if uses_value:
+                ncast += 1
+                guarded = any(is_guard(c) is not None and is_guard(c) == pol for c, pol in cx)
+                if not guarded:
+                    ok = False
+                    why = "the value is converted (%s) on a path where canConvertNumber<%s>(value) did not hold" % (fn.text(leaf)[:40], to)
+            else:
+                z = fn.const(leaf)
+                sl = fn.s(fn.strip(leaf, casts=True))
+                if not (z == 0 or sl.get("v") in ("0", 0) or (sl["k"] == "FloatingLiteral" and float(sl.get("v", 1)) == 0.0)):
+                    ok = False
+                    why = "returns %s instead of 0 when the value does not fit" % fn.text(leaf)[:40]
+        if ok and ncast == 0:
+            ok = False
+            why = "no path returns the converted value"
         ctx.ob(rule, "convertNumber<%s>: cast under its own guard, 0 otherwise" % ",".join(fn.d.get("targs") or []), ok, fn.where,
-               "" if ok else "the narrowing cast is not (canConvertNumber<TOut>(value) ? TOut(value) : 0)", nontrivial=False)
+               "%d return site(s): the converted value only under canConvertNumber<%s>(value), the literal 0 otherwise" % (len(sites), to)
+               if ok else why, nontrivial=False)
     ctx.floor(rule, "convertNumber instantiations", nc, 40)
     # other floating -> integral conversions
     for fn in sorted(prog.fns.values(), key=lambda f: f.key):
@@ -318,13 +349,17 @@ def run(ctx, prog):
     ns = 0
 
     def case_returns(fn):
+        """tag -> return statements reachable with that tag (switch cases and
+        if-chains on type_ alike)"""
         out = {}
-        for head, reach in tags.switch_constraints(fn, T):
-            for b, ts in reach.items():
-                for e in fn.blocks()[b]["el"]:
-                    if isinstance(e, int) and fn.s(e)["k"] == "ReturnStmt" and fn.s(e)["c"]:
-                        for t in ts:
-                            out.setdefault(t, []).append(e)
+        sw = tags.switch_constraints(fn, T)
+        for e in fn.walk():
+            if fn.s(e)["k"] == "ReturnStmt" and fn.s(e)["c"]:
+                ts = tags.possible_tags_at(fn, e, T, prog, sw)
+                if ts is None:
+                    continue
+                for t in ts:
+                    out.setdefault(t, []).append(e)
         return out
     for fn in sorted(prog.q("VariantData::asIntegral"), key=lambda f: f.key):
         ns += 1
@@ -357,7 +392,9 @@ def run(ctx, prog):
                     a = fn.s(fn.strip(r["args"][0], casts=True))
                     ok = a["k"] == "MemberExpr"
                     # no guard other than the switch itself
-                    extra = [c for c, p in fn.guards_of(e) if not tags.is_type_field(fn, c)]
+                    # conditions that depend on the tag alone only select the case
+                    extra = [c for c, p in fn.guards_of(e) if not tags.is_type_field(fn, c) and
+                             any(tags.truth(fn, c, v_, prog) is None for v_ in T.values())]
                     if extra:
                         ok = False
                         why = "an additional condition (%s) decides the result" % fn.text(extra[0])
